@@ -37,7 +37,20 @@ func genPlanSrv(t *simrt.Tape, tier string) interface{} {
 		clampTiming(&p.Back)
 	}
 	p.LingerS = []int{5, 70, 200}[t.Draw(3)]
-	if t.Draw(5) == 0 {
+	if t.Draw(8) == 0 {
+		// template: a peer that says one or two things and disappears at once, without waiting
+		// for any answer (the server is still looking at its input when the connection goes)
+		var sc []Step
+		for _, st := range GenScript(t, 2) {
+			if st.Op == "wait" || st.Op == "close" || st.Op == "reset" {
+				continue
+			}
+			st.NoWait = true
+			sc = append(sc, st)
+		}
+		sc = append(sc, Step{Op: []string{"close", "close", "reset"}[t.Draw(3)]})
+		p.Scripts[0] = sc
+	} else if t.Draw(5) == 0 {
 		// template: authentication round trips, then an answer that changes one thing
 		p.Conf.AuthOut = [][]int{{2, 0}, {2, 2, 0}, {2, 4}, {2, 1, 0}}[t.Draw(4)]
 		p.Conf.RegOut = 0
@@ -194,8 +207,11 @@ func oracleC03(w *World, p *PlanSrv, h *History, sut *SUT, nconn int) {
 			}
 			// full mode: the builder answers guest attempts itself, without the recorded callbacks;
 			// such an attempt is the first authenticating frame beyond those the callbacks consumed
+			// (a pipelining client may already have sent such a frame behind the one whose callback
+			// succeeded: an establishment that a successful callback accounts for is judged by it)
 			guestFull := false
-			if p.Conf.Full && nAuth < len(authFrames) && authFrames[nAuth].Seq < e.Seq && fstr(authFrames[nAuth].Frame, "scheme") == "guest" {
+			byCallback := lastAuth != nil && (fstr(lastAuth.Frame, "outcome") == "member" || fstr(lastAuth.Frame, "outcome") == "authority")
+			if !byCallback && p.Conf.Full && nAuth < len(authFrames) && authFrames[nAuth].Seq < e.Seq && fstr(authFrames[nAuth].Frame, "scheme") == "guest" {
 				guestFull = true
 				lastClientAuth = authFrames[nAuth].Frame
 				lastAuth = nil
@@ -295,9 +311,9 @@ func oracleC03(w *World, p *PlanSrv, h *History, sut *SUT, nconn int) {
 					check(e, "EstablishSession returned established", fstr(e.Frame, "remote"))
 				}
 			case "cb-established":
-				if e.Frame["established"] == true {
-					check(e, "Established callback with an established channel", fstr(e.Frame, "remote"))
-				}
+				// the callback is how the server tells the application that a session is
+				// established, whatever the channel says about itself at that moment
+				check(e, "Established callback (channel state "+fstr(e.Frame, "state")+")", fstr(e.Frame, "remote"))
 			case "state-obs":
 				if fstr(e.Frame, "state") == "established" {
 					check(e, "State() observed established", "")
